@@ -83,6 +83,12 @@ F32SampleOK(out, xs, ws) ==
          IN  /\ KeyFinite(out)
              /\ DyLe(err, DyAdd(DyScale2(DyAbs(ideal), -22), DyScale2(mass, -45)))
 
+\* C03 (records with echo.clipidx: only this is judged, sample by sample, for custom kernels with large weights):
+\* the index into the 1280-entry clip table of the portable 8-bit kernels (640 + (acc >> p)) stays inside it
+ClipIdxOK(e, xs, co, i) ==
+    (e.echo.comp = "u8" /\ "clipidx" \in DOMAIN e.echo) =>
+        LET idx == ClipIndex(xs, co.ks[i].k, co.p) IN idx >= 0 /\ idx < 1280
+
 SampleOK(e, out, xs, co, i) ==
     CASE e.echo.comp = "u8" -> IntSampleOK(out, xs, co.ks[i].k, co.p, 255)
       [] e.echo.comp = "u16" -> WideSampleOK(out, xs, co.ks[i].k, co.p)
@@ -103,7 +109,8 @@ HorizOK(e, src, dst, co, rowOff, colShift) ==
                   n == Taps(e, co, x + 1)
                   xs == [t \in 1 .. n |-> At(src, nc, start + t - 1, y + rowOff, c)]
               IN  /\ start >= 0 /\ start + n <= src.w /\ y + rowOff < src.h
-                  /\ SampleOK(e, At(dst, nc, x, y, c), xs, co, x + 1)
+                  /\ IF "clipidx" \in DOMAIN e.echo THEN ClipIdxOK(e, xs, co, x + 1)
+                     ELSE SampleOK(e, At(dst, nc, x, y, c), xs, co, x + 1)
 VertOK(e, src, dst, co, colOff, rowShift) ==
     LET nc == e.echo.nc
     IN  /\ Len(co.bounds) = dst.h
@@ -112,7 +119,8 @@ VertOK(e, src, dst, co, colOff, rowShift) ==
                   n == Taps(e, co, y + 1)
                   xs == [t \in 1 .. n |-> At(src, nc, x + colOff, start + t - 1, c)]
               IN  /\ start >= 0 /\ start + n <= src.h /\ x + colOff < src.w
-                  /\ SampleOK(e, At(dst, nc, x, y, c), xs, co, y + 1)
+                  /\ IF "clipidx" \in DOMAIN e.echo THEN ClipIdxOK(e, xs, co, y + 1)
+                     ELSE SampleOK(e, At(dst, nc, x, y, c), xs, co, y + 1)
 
 \* nearest-neighbour intermediate of a two-step super-sampling
 SsOK(e) ==
